@@ -18,7 +18,7 @@ RULE = ("Hypothesis: configuration x state. Pure states are prepared by real pre
         "qubit order; distinct by (n, connectivity, state description). Oracle: Tr(rho P) for all 4^n Paulis by dense algebra "
         "(|delta| < 1e-9), exactly 4^n phase-free keys, density matrix in little-endian order. Additionally one state per n is "
         "tomographed on all configurations of n one after the other in one process (both orders) to expose state carried between calls.")
-ASSUMPTIONS = ["dense simulator; little-endian conventions cross-checked in the self-test",
+ASSUMPTIONS = ["results: FakeResult or genuine qiskit.result.Result (Result.from_dict with named headers) alternating", "dense simulator; little-endian conventions cross-checked in the self-test",
                "mixed states are injected behind an empty preparation circuit (the fitter never inspects the preparation part)",
                "a continuum of states is sampled; the fitter is linear in the statistics, the operator-space rank of the sample is reported"]
 BUDGET = {"quick": 400, "thorough": 3000}
@@ -56,7 +56,7 @@ def check_tomography(case, want_vec=False):
             else:
                 pw = [(w, dense.run(mops, n, psi=psi)) for (w, psi) in comps]
             counts.append(tomo.rescale_counts(tomo.exact_counts(pw, n, rng), case.get("zero_seed", 0) // 3 + len(counts)))
-        fitter = L.tomo.FullStateTomographyFitter(tomo.FakeResult(counts), circs)
+        fitter = L.tomo.FullStateTomographyFitter(tomo.make_result(counts, circs, case.get("zero_seed", 0)), circs)
         ev_raw = fitter.expectation_values()
         dm = np.asarray(fitter.density_matrix())
     except dense.UnknownGate as e:
